@@ -45,6 +45,7 @@ impl<T: Canon> Canon for Vec<T> { fn canon(&self, o: &mut String) { canon_seq(se
 impl<T: Canon> Canon for Box<[T]> { fn canon(&self, o: &mut String) { canon_seq(self.iter(), o) } }
 impl<T: Canon> Canon for std::sync::Arc<[T]> { fn canon(&self, o: &mut String) { canon_seq(self.iter(), o) } }
 impl<T: Canon> Canon for std::collections::VecDeque<T> { fn canon(&self, o: &mut String) { canon_seq(self.iter(), o) } }
+impl<T: Canon, const N: usize> Canon for arrayvec::ArrayVec<T, N> { fn canon(&self, o: &mut String) { canon_seq(self.iter(), o) } }
 impl<T: Canon, const N: usize> Canon for [T; N] { fn canon(&self, o: &mut String) { canon_seq(self.iter(), o) } }
 impl<T: Canon> Canon for Option<T> { fn canon(&self, o: &mut String) { match self { None => o.push_str("VNone"), Some(x) => { o.push_str("(VSome "); x.canon(o); o.push(')'); } } } }
 impl<A: Canon, B: Canon> Canon for Result<A, B> { fn canon(&self, o: &mut String) { match self {
